@@ -161,3 +161,21 @@ PROPS["C06"] = dict(
          "terms) x 2 wavefunctions, bubble-sort key lists, tensor tuples; non-trivial = exact result has a negative/non-real "
          "amplitude; distinct by (case, repetition)",
 )
+
+PROPS["C02"] = dict(
+    level="proof",
+    technique="Lean 4 theorems (scalar part enters exactly once on every route/algorithm of the decision model; in-place "
+              "refusal iff Taylor route; group law / identity / inverse of the closed-form single-term evolution; phase "
+              "group law of the diagonal routes) + correspondence against expm of the exact Spec matrix of H",
+    text="The route cascade and scalar accounting are modelled and proved (once on every route); the closed-form routes "
+         "are proved to be one-parameter groups algebraically. Every route (diagonal, quadratic restricted and GSO, "
+         "diagonal-Coulomb, single term, sparse multi-term Taylor, dense Taylor, Chebyshev) is executed on the real library "
+         "with e_0 != 0 and compared with expm(-itH) psi where H's matrix is produced exactly by the Spec driver; norm, "
+         "in-place = out-of-place, t1 then t2 = t1+t2, -t undoes t, and the in-place refusal decision are checked.",
+    note="Lean kernel + Mathlib ring/linear_combination; identification of the closed forms with the analytic exponential "
+         "and the quadratic route (orbital rotation, see C12) are decided numerically (tolerance 1e-8, scipy.linalg.expm "
+         "trusted); number-broken wavefunctions are not exercised here.",
+    design_ref="DESIGN.md §5 C02",
+    rule="cases = (route, wavefunction kind, t in {0, 0.13, -0.31, 0.5, 1.1}, e0 in {0, 0.7, -1.25}, api) evolutions + "
+         "in-place, composition and inverse re-evolutions; non-trivial = t != 0; distinct by case index",
+)
